@@ -756,7 +756,7 @@ func C10(j *core.Job) {
 		rep.Count("kind_"+k, 0)
 	}
 	rep.Count("nan_map_keys", 0)
-	for _, k := range []string{"mutator_steps_applied", "strings_enumerated_exhaustively", "strings_with_invalid_utf8", "map_multi_entry_invariant_oracle", "map_single_entry_exact", "nil_interface_elements"} {
+	for _, k := range []string{"mutator_steps_applied", "mutator_steps_applied_multi_entry_maps_order_dependent", "strings_enumerated_exhaustively", "strings_with_invalid_utf8", "map_multi_entry_invariant_oracle", "map_single_entry_exact", "nil_interface_elements"} {
 		rep.Count(k, 0)
 	}
 	run := func(c *C10Case, sample bool) {
@@ -769,7 +769,14 @@ func C10(j *core.Job) {
 				muts++
 			}
 		}
-		rep.Count("mutator_steps_applied", muts)
+		if (c.Kind == "map" || c.Kind == "map-any") && len(c.Elems) > 1 {
+			// how many steps a multi-entry map run has depends on Go's random iteration order
+			// (a deletion may or may not hit an entry that was visited already): this counter
+			// differs between two runs of one seed, the verdict does not
+			rep.Count("mutator_steps_applied_multi_entry_maps_order_dependent", muts)
+		} else {
+			rep.Count("mutator_steps_applied", muts)
+		}
 		if len(exp) >= 4 {
 			b, _ := json.Marshal(c)
 			rep.Nontrivial(prng.Derive(0, string(b)).Seed())
